@@ -15,6 +15,7 @@ def run(ctx):
         "naming the key that missed, a non-empty map at exit gives one UnusedModules warning naming exactly the remaining "
         "values, and nothing swallows an exception. Order independence: self.modules is only iterated, concatenated or "
         "joined as a whole. Overhangs and modules are uninterpreted terms, so the verdict depends on the overhang graph only."
+        ' A groupby in the assembly layer must run over an iterable sorted by the very key it groups by (rule groupby); K0 also requires that what __init__ stores for the second walk of assemble() is re-iterable.'
     )
     r.not_decided = ["a single module whose start overhang is its own reverse complement (the property text does not settle the expected outcome)",
                      "equality of overhangs differing in case (C18)"]
